@@ -539,6 +539,12 @@ def addrEqR (a b : RAddr) : Bool :=
 /-- `_tuple()` with `settings.route_aware` off -/
 def hashKeyR (a : RAddr) : Nat × Option Nat × Option Bytes × Option Unit := hashKey a.base
 
+/-- `_tuple()` under either value of `settings.route_aware`:
+    `(type, net, octets, None)` if not route aware or no route, else with the route's tuple -/
+def tupleR (aware : Bool) (a : RAddr) :
+    (Nat × Option Nat × Option Bytes) × Option (Nat × Option Nat × Option Bytes) :=
+  if aware then (eqKey a.base, a.route.map eqKey) else (eqKey a.base, none)
+
 /-! ## dictionary keys of both kinds (ints and addresses in one table, as `DeviceInfoCache.cache`)
 
 A Python dict treats `x` and `y` as one key iff `hash(x) == hash(y)` and `x == y`.
